@@ -26,6 +26,8 @@ pub enum Policy {
     Custom,
     /// custom interval function that keeps growing: attempt k waits k ms
     CustomLinear,
+    /// ReconnectPolicy::fixed(Duration::from_micros(us)), 0 < us < 1000
+    FixedMicros(u32),
 }
 
 fn one() -> u64 {
@@ -67,6 +69,7 @@ fn case_strategy(_tier: Tier) -> BoxedStrategy<RcCase> {
         2 => (1u64..=5, 1u64..=40, 0u8..=10).prop_map(|(init, cap, factor10)| Policy::Jittered { init, cap, factor10 }),
         2 => Just(Policy::Custom),
         1 => Just(Policy::CustomLinear),
+        1 => prop_oneof![Just(1u32), Just(900u32), 1u32..=999].prop_map(Policy::FixedMicros),
     ];
     let outcome = prop_oneof![3 => Just(0u8), 5 => Just(1u8), 2 => Just(2u8)];
     let script = prop::collection::vec((prop_oneof![2 => Just(0u64), 1 => 0u64..=10], outcome), 1..=10);
@@ -146,6 +149,7 @@ fn build_policy(p: &Policy) -> ReconnectPolicy {
         ),
         Policy::Custom => ReconnectPolicy::Custom(Arc::new(CustomFn)),
         Policy::CustomLinear => ReconnectPolicy::Custom(Arc::new(LinearFn)),
+        Policy::FixedMicros(us) => ReconnectPolicy::fixed(Duration::from_micros(*us as u64)),
     }
 }
 
@@ -169,20 +173,23 @@ fn min_delay_ns(p: &Policy, k: usize) -> Option<u128> {
     let lower = |att: usize| -> Option<u128> {
         match p {
             Policy::None => None,
+            // documented value, computed here: min(initial x 2^attempt, max_delay)
+            Policy::Exponential { init, cap } => {
+                let v = (*init as f64 * 1e6) * 2f64.powi(att.min(1000) as i32);
+                Some((v.min(*cap as f64 * 1e6) * (1.0 - 1e-9)) as u128)
+            }
             Policy::Jittered { init, cap, factor10 } => {
-                let base = ReconnectPolicy::exponential(
-                    Duration::from_millis(*init),
-                    Duration::from_millis(*cap),
-                )
-                .delay_for_attempt(att)?;
+                let v = (*init as f64 * 1e6) * 2f64.powi(att.min(1000) as i32);
+                let base = v.min(*cap as f64 * 1e6);
                 let f = *factor10 as f64 / 10.0;
-                Some((base.as_nanos() as f64 * (1.0 - f) * (1.0 - 1e-9)).max(0.0) as u128)
+                Some((base * (1.0 - f) * (1.0 - 1e-9)).max(0.0) as u128)
             }
             // the custom interval functions are the harness's own: computed here, not through the
             // policy object under test
             Policy::Custom => Some(CUSTOM_MS[att % CUSTOM_MS.len()] as u128 * 1_000_000),
             Policy::CustomLinear => Some(att as u128 * 1_000_000),
             Policy::Fixed(ms) => Some(*ms as u128 * 1_000_000),
+            Policy::FixedMicros(us) => Some(*us as u128 * 1_000),
             other => build_policy(other).delay_for_attempt(att).map(|d| d.as_nanos()),
         }
     };
